@@ -21,6 +21,9 @@ pub trait DynW {
     fn d_code(&mut self, code: &str, flags: &str, p: u64, v: u64) -> Option<R<usize>>;
     fn d_io_write(&mut self, b: &[u8]) -> R<usize>;
     fn d_copy_from(&mut self, r: &mut dyn DynR, n: u64) -> R<()>;
+    fn d_stat(&self) -> String {
+        "-".into()
+    }
 }
 
 pub trait DynR {
@@ -35,6 +38,9 @@ pub trait DynR {
     fn d_seek(&mut self, p: u64) -> R<()>;
     fn d_clone_box(&self) -> Box<dyn DynR>;
     fn d_copy_to(&mut self, w: &mut dyn DynW, n: u64) -> R<()>;
+    fn d_stat(&self) -> String {
+        "-".into()
+    }
 }
 
 /// adapter: a `dyn DynW` as a library `BitWrite<E>` (required methods only)
@@ -239,6 +245,117 @@ impl_dynr!(LE, BitReader<LE, MemWordReader<u64, Vec<u64>, true>>);
 impl_dynr!(BE, BitReader<BE, MemWordReader<u64, Vec<u64>, false>>);
 impl_dynr!(LE, BitReader<LE, MemWordReader<u64, Vec<u64>, false>>);
 
+
+// ---- counting / tracing wrappers (C14) -----------------------------------------------------
+
+macro_rules! impl_dynw_wrapped {
+    ($E:ty, $T:ty, $stat:expr) => {
+        impl DynW for $T {
+            fn d_write_bits(&mut self, v: u64, n: usize) -> R<usize> {
+                BitWrite::<$E>::write_bits(self, v, n).map_err(ce)
+            }
+            fn d_write_unary(&mut self, x: u64) -> R<usize> {
+                BitWrite::<$E>::write_unary(self, x).map_err(ce)
+            }
+            fn d_flush(&mut self) -> R<usize> {
+                BitWrite::<$E>::flush(self).map_err(ce)
+            }
+            fn d_code(&mut self, code: &str, flags: &str, p: u64, v: u64) -> Option<R<usize>> {
+                wcode_body!(self, code, flags, p, v)
+            }
+            fn d_io_write(&mut self, _b: &[u8]) -> R<usize> {
+                Err("bad-op".into())
+            }
+            fn d_copy_from(&mut self, r: &mut dyn DynR, n: u64) -> R<()> {
+                BitWrite::<$E>::copy_from(self, &mut RA::<$E>(r, PhantomData), n).map_err(ce)
+            }
+            fn d_stat(&self) -> String {
+                let f: fn(&$T) -> String = $stat;
+                f(self)
+            }
+        }
+    };
+}
+
+macro_rules! impl_dynr_wrapped {
+    ($E:ty, $T:ty, $stat:expr, $pos:expr, $seek:expr) => {
+        impl DynR for $T {
+            fn d_read_bits(&mut self, n: usize) -> R<u64> {
+                BitRead::<$E>::read_bits(self, n).map_err(ce)
+            }
+            fn d_peek_bits(&mut self, n: usize) -> R<u64> {
+                use common_traits::CastableInto;
+                BitRead::<$E>::peek_bits(self, n).map(|x| x.cast()).map_err(ce)
+            }
+            fn d_skip_bits(&mut self, n: usize) -> R<()> {
+                BitRead::<$E>::skip_bits(self, n).map_err(ce)
+            }
+            fn d_skip_bits_after_peek(&mut self, n: usize) {
+                BitRead::<$E>::skip_bits_after_peek(self, n)
+            }
+            fn d_read_unary(&mut self) -> R<u64> {
+                BitRead::<$E>::read_unary(self).map_err(ce)
+            }
+            fn d_code(&mut self, code: &str, flags: &str, p: u64) -> Option<R<u64>> {
+                rcode_body!(self, code, flags, p)
+            }
+            fn d_io_read(&mut self, _len: usize) -> R<Vec<u8>> {
+                Err("bad-op".into())
+            }
+            fn d_pos(&mut self) -> R<u64> {
+                let f: fn(&mut $T) -> R<u64> = $pos;
+                f(self)
+            }
+            fn d_seek(&mut self, p: u64) -> R<()> {
+                let f: fn(&mut $T, u64) -> R<()> = $seek;
+                f(self, p)
+            }
+            fn d_clone_box(&self) -> Box<dyn DynR> {
+                Box::new(self.clone())
+            }
+            fn d_copy_to(&mut self, w: &mut dyn DynW, n: u64) -> R<()> {
+                BitRead::<$E>::copy_to(self, &mut WA::<$E>(w, PhantomData), n).map_err(ce)
+            }
+            fn d_stat(&self) -> String {
+                let f: fn(&$T) -> String = $stat;
+                f(self)
+            }
+        }
+    };
+}
+
+macro_rules! impl_wrapped_writers {
+    ($($W:ty),*) => {$(
+        impl_dynw_wrapped!(BE, CountBitWriter<BE, BufBitWriter<BE, MemWordWriterVec<$W, SharedVec<$W>>>>, |s| format!("bw={}", s.bits_written));
+        impl_dynw_wrapped!(LE, CountBitWriter<LE, BufBitWriter<LE, MemWordWriterVec<$W, SharedVec<$W>>>>, |s| format!("bw={}", s.bits_written));
+        impl_dynw_wrapped!(BE, DbgBitWriter<BE, BufBitWriter<BE, MemWordWriterVec<$W, SharedVec<$W>>>>, |_s| "-".to_string());
+        impl_dynw_wrapped!(LE, DbgBitWriter<LE, BufBitWriter<LE, MemWordWriterVec<$W, SharedVec<$W>>>>, |_s| "-".to_string());
+    )*};
+}
+impl_wrapped_writers!(u8, u16, u32, u64, u128);
+
+macro_rules! impl_wrapped_readers_for {
+    ($E:ty, $Inner:ty) => {
+        impl_dynr_wrapped!($E, CountBitReader<$E, $Inner>, |s| format!("br={}", s.bits_read),
+            |s| BitSeek::bit_pos(s).map_err(ce), |s, p| BitSeek::set_bit_pos(s, p).map_err(ce));
+        impl_dynr_wrapped!($E, DbgBitReader<$E, $Inner>, |_s| "-".to_string(),
+            |_s| Err("bad-op".into()), |_s, _p| Err("bad-op".into()));
+    };
+}
+macro_rules! impl_wrapped_readers {
+    ($($W:ty),*) => {$(
+        impl_wrapped_readers_for!(BE, BufBitReader<BE, MemWordReader<$W, Vec<$W>, true>>);
+        impl_wrapped_readers_for!(LE, BufBitReader<LE, MemWordReader<$W, Vec<$W>, true>>);
+        impl_wrapped_readers_for!(BE, BufBitReader<BE, MemWordReader<$W, Vec<$W>, false>>);
+        impl_wrapped_readers_for!(LE, BufBitReader<LE, MemWordReader<$W, Vec<$W>, false>>);
+    )*};
+}
+impl_wrapped_readers!(u8, u16, u32, u64);
+impl_wrapped_readers_for!(BE, BitReader<BE, MemWordReader<u64, Vec<u64>, true>>);
+impl_wrapped_readers_for!(LE, BitReader<LE, MemWordReader<u64, Vec<u64>, true>>);
+impl_wrapped_readers_for!(BE, BitReader<BE, MemWordReader<u64, Vec<u64>, false>>);
+impl_wrapped_readers_for!(LE, BitReader<LE, MemWordReader<u64, Vec<u64>, false>>);
+
 #[derive(Clone)]
 pub struct Cfg {
     pub le: bool,
@@ -248,6 +365,7 @@ pub struct Cfg {
     pub strict: bool,
     pub cap: Option<usize>,
     pub data: Vec<u8>,
+    pub wrap: u8, // 0 none, 1 count, 2 dbg
 }
 
 /// a writer plus the harness' handle on its storage
@@ -257,13 +375,18 @@ pub struct Wr {
 }
 
 macro_rules! mk_writer {
-    ($E:ty, $W:ty, $cap:expr) => {{
+    ($E:ty, $W:ty, $cap:expr, $wrap:expr) => {{
         match $cap {
             None => {
                 let sv = SharedVec::<$W>::new(Vec::new());
                 let h = sv.handle();
                 let w = BufBitWriter::<$E, _>::new(MemWordWriterVec::new(sv));
-                Wr { w: Box::new(w), dump: Box::new(move || bytes_of_words(&h.snapshot())) }
+                let b: Box<dyn DynW> = match $wrap {
+                    1 => Box::new(CountBitWriter::<$E, _>::new(w)),
+                    2 => Box::new(DbgBitWriter::<$E, _>::new(w)),
+                    _ => Box::new(w),
+                };
+                Wr { w: b, dump: Box::new(move || bytes_of_words(&h.snapshot())) }
             }
             Some(c) => {
                 let sv = SharedVec::<$W>::new(vec![0 as $W; c]);
@@ -277,60 +400,70 @@ macro_rules! mk_writer {
 
 pub fn make_writer(c: &Cfg) -> Option<Wr> {
     Some(match (c.le, c.ww) {
-        (false, 8) => mk_writer!(BE, u8, c.cap),
-        (false, 16) => mk_writer!(BE, u16, c.cap),
-        (false, 32) => mk_writer!(BE, u32, c.cap),
-        (false, 64) => mk_writer!(BE, u64, c.cap),
-        (false, 128) => mk_writer!(BE, u128, c.cap),
-        (true, 8) => mk_writer!(LE, u8, c.cap),
-        (true, 16) => mk_writer!(LE, u16, c.cap),
-        (true, 32) => mk_writer!(LE, u32, c.cap),
-        (true, 64) => mk_writer!(LE, u64, c.cap),
-        (true, 128) => mk_writer!(LE, u128, c.cap),
+        (false, 8) => mk_writer!(BE, u8, c.cap, c.wrap),
+        (false, 16) => mk_writer!(BE, u16, c.cap, c.wrap),
+        (false, 32) => mk_writer!(BE, u32, c.cap, c.wrap),
+        (false, 64) => mk_writer!(BE, u64, c.cap, c.wrap),
+        (false, 128) => mk_writer!(BE, u128, c.cap, c.wrap),
+        (true, 8) => mk_writer!(LE, u8, c.cap, c.wrap),
+        (true, 16) => mk_writer!(LE, u16, c.cap, c.wrap),
+        (true, 32) => mk_writer!(LE, u32, c.cap, c.wrap),
+        (true, 64) => mk_writer!(LE, u64, c.cap, c.wrap),
+        (true, 128) => mk_writer!(LE, u128, c.cap, c.wrap),
         _ => return None,
     })
 }
 
+macro_rules! wrap_reader {
+    ($E:ty, $r:expr, $wrap:expr) => {{
+        let r = $r;
+        match $wrap {
+            1 => Box::new(CountBitReader::<$E, _>::new(r)) as Box<dyn DynR>,
+            2 => Box::new(DbgBitReader::<$E, _>::new(r)) as Box<dyn DynR>,
+            _ => Box::new(r) as Box<dyn DynR>,
+        }
+    }};
+}
 macro_rules! mk_reader {
-    ($E:ty, $W:ty, $strict:expr, $bytes:expr) => {{
+    ($E:ty, $W:ty, $strict:expr, $bytes:expr, $wrap:expr) => {{
         let v: Vec<$W> = words_of_bytes::<$W>($bytes);
         if $strict {
-            Box::new(BufBitReader::<$E, _>::new(MemWordReader::new_strict(v))) as Box<dyn DynR>
+            wrap_reader!($E, BufBitReader::<$E, _>::new(MemWordReader::new_strict(v)), $wrap)
         } else {
-            Box::new(BufBitReader::<$E, _>::new(MemWordReader::new(v))) as Box<dyn DynR>
+            wrap_reader!($E, BufBitReader::<$E, _>::new(MemWordReader::new(v)), $wrap)
         }
     }};
 }
 macro_rules! mk_bitreader {
-    ($E:ty, $strict:expr, $bytes:expr) => {{
+    ($E:ty, $strict:expr, $bytes:expr, $wrap:expr) => {{
         let v: Vec<u64> = words_of_bytes::<u64>($bytes);
         if $strict {
-            Box::new(BitReader::<$E, _>::new(MemWordReader::new_strict(v))) as Box<dyn DynR>
+            wrap_reader!($E, BitReader::<$E, _>::new(MemWordReader::new_strict(v)), $wrap)
         } else {
-            Box::new(BitReader::<$E, _>::new(MemWordReader::new(v))) as Box<dyn DynR>
+            wrap_reader!($E, BitReader::<$E, _>::new(MemWordReader::new(v)), $wrap)
         }
     }};
 }
 
 pub fn make_reader(c: &Cfg, bytes: &[u8]) -> Option<Box<dyn DynR>> {
     if c.bit {
-        return Some(if c.le { mk_bitreader!(LE, c.strict, bytes) } else { mk_bitreader!(BE, c.strict, bytes) });
+        return Some(if c.le { mk_bitreader!(LE, c.strict, bytes, c.wrap) } else { mk_bitreader!(BE, c.strict, bytes, c.wrap) });
     }
     Some(match (c.le, c.rw) {
-        (false, 8) => mk_reader!(BE, u8, c.strict, bytes),
-        (false, 16) => mk_reader!(BE, u16, c.strict, bytes),
-        (false, 32) => mk_reader!(BE, u32, c.strict, bytes),
-        (false, 64) => mk_reader!(BE, u64, c.strict, bytes),
-        (true, 8) => mk_reader!(LE, u8, c.strict, bytes),
-        (true, 16) => mk_reader!(LE, u16, c.strict, bytes),
-        (true, 32) => mk_reader!(LE, u32, c.strict, bytes),
-        (true, 64) => mk_reader!(LE, u64, c.strict, bytes),
+        (false, 8) => mk_reader!(BE, u8, c.strict, bytes, c.wrap),
+        (false, 16) => mk_reader!(BE, u16, c.strict, bytes, c.wrap),
+        (false, 32) => mk_reader!(BE, u32, c.strict, bytes, c.wrap),
+        (false, 64) => mk_reader!(BE, u64, c.strict, bytes, c.wrap),
+        (true, 8) => mk_reader!(LE, u8, c.strict, bytes, c.wrap),
+        (true, 16) => mk_reader!(LE, u16, c.strict, bytes, c.wrap),
+        (true, 32) => mk_reader!(LE, u32, c.strict, bytes, c.wrap),
+        (true, 64) => mk_reader!(LE, u64, c.strict, bytes, c.wrap),
         _ => return None,
     })
 }
 
 pub fn parse_cfg(toks: &[&str]) -> Cfg {
-    let mut c = Cfg { le: false, ww: 64, rw: 32, bit: false, strict: false, cap: None, data: vec![] };
+    let mut c = Cfg { le: false, ww: 64, rw: 32, bit: false, strict: false, cap: None, data: vec![], wrap: 0 };
     for t in toks {
         if let Some((k, v)) = t.split_once('=') {
             match k {
@@ -341,6 +474,7 @@ pub fn parse_cfg(toks: &[&str]) -> Cfg {
                 "strict" => c.strict = v == "1",
                 "cap" => c.cap = v.parse().ok(),
                 "data" => c.data = unhex(v).unwrap_or_default(),
+                "wrap" => c.wrap = match v { "count" => 1, "dbg" => 2, _ => 0 },
                 _ => {}
             }
         }
@@ -565,7 +699,7 @@ fn step(cfg: &Cfg, st: &mut State, op: &[&str], outs: &mut Vec<String>, pad: &dy
             true
         }
         ["stat"] => {
-            outs.push("-".into());
+            outs.push(format!("{} {}", st.w.w.d_stat(), st.r.d_stat()));
             true
         }
         ["reopen"] => {
